@@ -549,7 +549,8 @@ def strat_fits(draw, tier="quick"):
     elif t == "indexed":
         spec = draw(S.indexed_spec(costs=("chi2",), n_sources=(1, 3), minimizers=(mini,)))
     elif t == "hist":
-        spec = draw(S.hist_spec(costs=("nll", "chi2", "gauss_approximation"), n_sources=(1, 2), minimizers=(mini,), bin_evaluations=("simpson", "numerical", "rectangle")))
+        spec = draw(S.hist_spec(costs=("nll", "chi2", "gauss_approximation"), densities=("normal", "normal", "expon", "lin_density"), n_sources=(1, 2), minimizers=(mini,),
+                                bin_evaluations=("simpson", "numerical", "rectangle")))  # lin_density: a model that is not a density (density=False)
         if spec["cost"] == "nll":
             spec["sources"] = []
     else:
